@@ -740,6 +740,41 @@ def c01c(F, R):
         R.bad("bitand_assign", "AvailableValueMap::bitand_assign is no longer `retain(|k, v| other.get(k) == Some(v))`", b["sp"])
 
 
+@rule("C02", "C02.q.a-call-hands-its-live-out-to-the-callee-s-exit", floor=1)
+def c02q(F, R):
+    """what the caller reads after a call is live at the callee's return: `live_in[F_exit] ⊇ live_out[call site]`, the whole set - a register outside every
+    saved / temporary class (gp, tp) that the callee sets for its caller is a real use too. The set published for the exit is a union one of whose
+    operands is the call site's live-out as it stands, not a part of it"""
+    f = _livepass_run(F)
+    body = f["hir"]["value"]
+    lets = local_inits(body)
+    sites = [m for m in walk(body, pats=False) if m.get("k") == "MethodCall" and m["name"] == "set_live_in" and any(y.get("k") == "MethodCall" and y["name"] == "exit" for y in walk(m["recv"], pats=False))]
+    if not sites:
+        raise Anchor("no `<function>.exit().set_live_in(..)` in LivenessPass::run")
+
+    def disjuncts(e, depth=0):
+        e = peel(e)
+        while e.get("k") in ("DropTemps", "Use", "Paren") or (e.get("k") == "Block" and not e.get("stmts") and e.get("expr") is not None):
+            e = peel(e.get("e") or e.get("expr"))
+        if e.get("k") == "Path" and e.get("res_kind") == "Local" and e.get("res") in lets and depth < 4:
+            return disjuncts(lets[e["res"]], depth + 1)
+        if e.get("k") == "Binary" and e["op"] == "BitOr":
+            return disjuncts(e["a"], depth) + disjuncts(e["b"], depth)
+        if e.get("k") == "MethodCall" and e["name"] in ("union", "clone") :
+            return disjuncts(e["recv"], depth) + [d for a in e["args"] for d in disjuncts(a, depth)]
+        return [e]
+    for i_, m in enumerate(sites, 1):
+        ds = disjuncts(m["args"][0])
+        whole = [d for d in ds if d.get("k") == "MethodCall" and d["name"] == "live_out" and not d["args"] and not any(y.get("k") == "MethodCall" and y["name"] == "exit" for y in walk(d["recv"], pats=False))]
+        part = [d for d in ds if d not in whole and any(y.get("k") == "MethodCall" and y["name"] == "live_out" for y in walk(d, pats=False))]
+        if whole:
+            R.ok(f"exit-live-in|{i_}", detail=f"the callee's exit gets `{ekey(whole[0])}` whole (∪ what it had)", where=loc(m))
+        elif part:
+            R.bad(f"exit-live-in|{i_}", f"the callee's exit only gets a part of the call site's live-out (`{ekey(part[0])[:70]}`): a register outside that part which the callee sets for its caller (`li gp, 0x100` in a set-up function, read after the call) is dead inside the callee and reported as an unused value", loc(m))
+        else:
+            R.bad(f"exit-live-in|{i_}", "what the caller reads after the call does not reach the callee's exit at all", loc(m))
+
+
 @rule("C02", "C02.c.meet-is-union", floor=2)
 def c02c(F, R):
     """successors' live_in sets are combined only with RegisterSet | ; u_def of predecessors with &"""
